@@ -23,6 +23,7 @@ theorem insertBefore_unfold (f : Forest) (ref new : Nat) :
 theorem insertBeforeTail_far {f : Forest} {c : Nat} {t : HTree} {q : Nat} {vq : Value} {A : List HTree}
     {kr : HTree} {B : List HTree} {X Y : Forest} {φ : HTree → HTree} (inv : f.Inv) (norm : f.Normal)
     (F : Far f (Keep.resident c) c t q vq (A ++ kr :: B) X Y φ) (sq : SiteAt f q vq (A ++ kr :: B))
+    (hxs : ∃ φ', KidMap φ' ∧ SiteAt X q vq ((A ++ kr :: B).map φ'))
     (hgc : f.get? c = some t) (hX : X = f ∨ textData t = none) (hrc : kr.handle ≠ c)
     (hkrn : kr.value.isNormal = true) (hq : q ∉ handles t)
     (hsame : ¬ prevOf A kr = some c)
@@ -54,7 +55,7 @@ theorem insertBeforeTail_far {f : Forest} {c : Nat} {t : HTree} {q : Nat} {vq : 
     exact (validTree_node (sq.valid (norm hc))).2.2.1 rfl
   have hplace : (X.checkedInsertBefore kr.handle c) =
       (Y.editAt (some q) (insertBeforeTop kr.handle t), true) := by
-    obtain ⟨φ', hk', _, sXq⟩ := F.xsite
+    obtain ⟨φ', hk', sXq⟩ := hxs
     have hm : (A ++ kr :: B).map φ' = A.map φ' ++ φ' kr :: B.map φ' := by simp
     rw [hm] at sXq
     have := Forest.checkedInsertBefore_ok F.xget sXq hq (by rw [hk'.handle]; exact hrc)
@@ -328,7 +329,8 @@ theorem insertBefore_spec_far {f : Forest} {ref c : Nat} (inv : f.Inv) (norm : f
     rcases Forest.root_or_ctx hgc with hroot | ⟨cx, hctx⟩
     · have hno := Forest.ctx_none_of_root nd hroot
       rw [Forest.prevSibling_of_no_ctx hno, Forest.removeConsolidate_none_left]
-      exact insertBeforeTail_far inv norm (far_root hgc hno sq hqt) sq hgc (Or.inl rfl) hrc hkrn hqt hsame hocc
+      exact insertBeforeTail_far inv norm (far_root hgc hno sq hqt) sq ⟨id, kidMap_id, by rw [List.map_id]; exact sq⟩
+        hgc (Or.inl rfl) hrc hkrn hqt hsame hocc
     · obtain ⟨e0, vo, so⟩ := SiteAt.of_ctx nd hctx
       have hself : cx.self = t := by
         have := Forest.get?_of_ctx nd hctx
@@ -344,8 +346,8 @@ theorem insertBefore_spec_far {f : Forest} {ref c : Nat} (inv : f.Inv) (norm : f
         rw [Forest.parent?_of_ctx hctx, hparref, e]
       rw [Forest.prevSibling_of_ctx hctx, Forest.nextSibling_of_ctx hctx]
       simp only
-      obtain ⟨φ, F⟩ := far_kid (keep := Keep.resident k.handle) inv norm (Keep.resident_spec k.handle)
+      obtain ⟨⟨φ, F⟩, hxs⟩ := far_kid (keep := Keep.resident k.handle) inv norm (Keep.resident_spec k.handle)
         so sq hpo hqt hvq
-      exact insertBeforeTail_far inv norm F sq hgc (old_stage inv norm so).same_or_not_text hrc hkrn hqt hsame hocc
+      exact insertBeforeTail_far inv norm F sq hxs hgc (old_stage inv norm so).same_or_not_text hrc hkrn hqt hsame hocc
 
 end XotModel
